@@ -178,3 +178,22 @@ def declare_c20(E):
                },
                ghost={"counted_total": "ghost('counted_total') + n"},
                returns="int", raises={})
+
+
+def declare_c25(E):
+    declare(E)
+    E.declare_ghost(delivered="bytes")
+    RA = {"OSError": "True", "TimeoutError": "True", "EOFError": "True", "SSHException": "True"}
+    for name in ("send", "send_stderr"):
+        E.contract(C + name, params={"s": "bytes"},
+                   requires={"fits": "len(s) < 2**31"},
+                   ensures={"progress_or_stream_closed": "0 <= result and result <= len(s)"},
+                   ghost={"delivered": "ghost('delivered') + s[0:result]"},
+                   returns="int", raises=dict(RA), modifies=[])
+    for name in ("sendall", "sendall_stderr"):
+        E.contract(C + name, params={"s": "bytes"},
+                   requires={"fits": "len(s) < 2**31"},
+                   ensures={"returns_only_after_every_byte_was_handed_over": "ghost('delivered') == old(ghost('delivered')) + s"},
+                   loops={0: dict(inv=["ghost('delivered') + s == old(ghost('delivered')) + old(s)", "len(s) < 2**31"],
+                                  variant="len(s)", havoc_ghosts=["delivered"], vars={"sent": "int"})},
+                   raises=dict(RA), returns="none")
